@@ -37,6 +37,12 @@ def scenario_steps(rng, kind, reloads):
             add("change-query(%s)" % b)
             if rng.random() < 0.3:
                 add("toggle-sort")
+    elif kind == "exclude-race":
+        # an exclusion immediately followed by another query-changing action while input is still streaming in
+        add("change-query(%s)" % rng.choice(["x", "y", "a", ""]))
+        for _ in range(rng.randint(1, 3)):
+            st.append({"sleep": rng.choice([0.05, 0.2]), "post": rng.choice(["exclude", "down+exclude"])})
+            st.append({"sleep": 0, "post": rng.choice(["put(x)", "put(y)", "backward-delete-char", "toggle-sort", "put(a)"])})
     else:
         qs = ["ab", "x", "xy", "b", "a"]
         q = rng.choice(qs)
@@ -207,6 +213,7 @@ def project(trace, get, sid, cmdmap=None):
     cmdmap = cmdmap or {}
     major_input = {0: -1}
     denied, prev_denied, nth = [], None, ""
+    wanted = []             # exclusions the user asked for (terminal side): must all be honoured at quiescence
     pending_sync_clear = False
     cfgs = []
 
@@ -235,6 +242,7 @@ def project(trace, get, sid, cmdmap=None):
                 pending_sync_clear = True
             else:
                 denied, prev_denied = [], None
+            wanted = []
         elif k == "coord.read":
             if e.get("fin") and pending_sync_clear:
                 denied, prev_denied = [], None
@@ -260,12 +268,23 @@ def project(trace, get, sid, cmdmap=None):
             evs.append(dict(req(e), ev="publish", res=ev_res(e), seq=e["seq"]))
         elif k == "term.list":
             evs.append({"ev": "list", "res": ev_res(e), "n": e["n"], "seq": e["seq"]})
+        elif k == "term.act" and e["act"] in ("exclude", "exclude-multi"):
+            # what the action excludes: the selection if there is one (exclude-multi), else the item under the cursor
+            ids_ = list(e["sel"]) if (e["act"] == "exclude-multi" and e["sel"]) else ([e["cur"]] if e.get("cur", -1) >= 0 else [])
+            if e["rev"][0] == max(major_input):     # an exclusion on a list of the input currently loaded
+                wanted = wanted + [i for i in ids_ if i not in wanted]
         elif k == "term.loop":
             evs.append({"ev": "query", "q": e["input"], "seq": e["seq"]})
     ids = [m["index"] for m in get["matches"]]
+    inp_last = cfgs[last_cfg][0] if cfgs else -1
+    wcfg = cfg_index((inp_last, tuple(sorted(wanted, key=lambda x: wanted.index(x))), nth)) if True else last_cfg
+    # the order of exclusions is irrelevant for the oracle; reuse the coordinator's configuration when the sets agree
+    if cfgs and set(cfgs[last_cfg][1]) == set(wanted) and cfgs[last_cfg][2] == nth:
+        wcfg = last_cfg
     evs.append({"ev": "end", "q": get["query"], "total": get["totalCount"], "sort": get["sort"], "getres": fnv_res(ids),
-                "matchCount": get["matchCount"]})
+                "matchCount": get["matchCount"], "wcfg": wcfg})
     keys.add((get["query"], get["totalCount"], get["sort"], last_cfg))
+    keys.add((get["query"], get["totalCount"], get["sort"], wcfg))
     return evs, keys, cfgs
 
 
